@@ -211,6 +211,7 @@ Proof.
   - unfold do_keepalive, do_transmit.
     pose proof (ND_send_staged _ (Inv_set_staged _ (if staged (set_now s (now s + 1)) =? 0 then 1 else staged (set_now s (now s + 1))) H0) N0).
     destruct (send_staged _) as [[s1 sent] i]. exact H1.
+  - exact N0.
 Qed.
 
 Theorem ND_reachable evs : ND (R evs).
@@ -357,6 +358,7 @@ Proof.
   - unfold do_keepalive, do_transmit.
     pose proof (now_send_staged (set_staged (set_now s (now s + 1)) (if staged (set_now s (now s + 1)) =? 0 then 1 else staged (set_now s (now s + 1))))).
     destruct (send_staged _) as [[s1 sent] i]. cbn [fst] in *. exact H.
+  - reflexivity.
 Qed.
 
 (* ---- frame clauses ----------------------------------------------------------------------------------- *)
@@ -375,7 +377,7 @@ Qed.
 
 (* events that never touch the slots *)
 Lemma same_slots_step s e :
-  match e with Initiate _ | Send | Keepalive | Tick _ | Forged _ | Replay _ => True | _ => False end ->
+  match e with Initiate _ | Send | Keepalive | Tick _ | Forged _ | Replay _ | Abandon => True | _ => False end ->
   same_slots s (fst (step s e)).
 Proof.
   unfold step. destruct e; intros He; try contradiction.
@@ -390,6 +392,7 @@ Proof.
   - unfold do_keepalive, do_transmit.
     pose proof (slots_send_staged (set_staged (set_now s (now s + 1)) (if staged (set_now s (now s + 1)) =? 0 then 1 else staged (set_now s (now s + 1))))) as Hs.
     destruct (send_staged _) as [[s1 sent] i]. cbn [fst] in *. eapply same_slots_trans; [|exact Hs]. repeat split.
+  - repeat split.
 Qed.
 
 Lemma tbl_eqb_refl l : tbl_eqb l l = true.
@@ -397,7 +400,7 @@ Proof. induction l as [|[x b] l IH]; cbn; [reflexivity|]. rewrite N.eqb_refl, Bo
 
 (* clauses 12, 13 *)
 Lemma c_inert_holds s o1 e :
-  match e with Forged _ | Replay _ => True | _ => False end ->
+  match e with Forged _ | Replay _ | Abandon => True | _ => False end ->
   c_inert (observe s o1) (observe (fst (step s e)) (snd (step s e))) = true.
 Proof.
   intros He. unfold c_inert. rewrite (frame_of_same s _ o1 _ (same_slots_step s e ltac:(destruct e; auto))).
@@ -636,6 +639,7 @@ Proof.
   - rewrite (keys_same _ _ (same_slots_step s (Replay sid) I)). auto.
   - intros [].
   - rewrite (keys_same _ _ (same_slots_step s Keepalive I)). auto.
+  - rewrite (keys_same _ _ (same_slots_step s Abandon I)). auto.
 Qed.
 
 Lemma frac_preserved s e n :
@@ -716,6 +720,7 @@ Proof.
   - unfold do_keepalive, do_transmit.
     pose proof (nidx_ss_le (set_staged (set_now s (now s + 1)) (if staged (set_now s (now s + 1)) =? 0 then 1 else staged (set_now s (now s + 1))))).
     destruct (send_staged _) as [[s1 sent] i]. cbn [fst nidx set_staged set_now] in *. lia.
+  - cbn. lia.
 Qed.
 
 (* ---- lastSentHandshake ------------------------------------------------------------------------------------ *)
@@ -800,6 +805,7 @@ Proof.
     pose proof (ss_last (set_staged (set_now s (now s + 1)) (if staged (set_now s (now s + 1)) =? 0 then 1 else staged (set_now s (now s + 1))))) as L.
     destruct (send_staged _) as [[s1 sent] i]. cbn [fst snd o_init o_resp last_sent now set_staged set_now] in *.
     rewrite L, Bool.orb_false_r. destruct i; reflexivity.
+  - reflexivity.
 Qed.
 
 (* ---- sessions, initiations, pending handshake index ------------------------------------------------------- *)
@@ -879,6 +885,7 @@ Proof.
   - unfold do_keepalive, do_transmit.
     pose proof (aux_ss (set_staged (set_now s (now s + 1)) (if staged (set_now s (now s + 1)) =? 0 then 1 else staged (set_now s (now s + 1))))) as [A B].
     destruct (send_staged _) as [[s1 sent] i]. cbn [fst] in *. rewrite A, B, N.add_0_r. split; reflexivity.
+  - cbn. rewrite N.add_0_r. split; reflexivity.
 Qed.
 
 (* pending handshake index: unchanged, or a fresh index *)
@@ -953,6 +960,7 @@ Proof.
   - unfold do_keepalive, do_transmit.
     pose proof (HS_ss (set_staged (set_now s (now s + 1)) (if staged (set_now s (now s + 1)) =? 0 then 1 else staged (set_now s (now s + 1))))) as Hs.
     destruct (send_staged _) as [[s1 sent] i]. cbn [fst] in *. apply G. exact Hs.
+  - left. reflexivity.
 Qed.
 
 (* initiations sent: at most one per event *)
@@ -1035,6 +1043,7 @@ Proof.
   - unfold do_keepalive, do_transmit.
     pose proof (pushed_ss (set_staged (set_now s (now s + 1)) (if staged (set_now s (now s + 1)) =? 0 then 1 else staged (set_now s (now s + 1))))) as P.
     destruct (send_staged _) as [[s1 sent] i]. cbn [fst snd o_init] in *. exact P.
+  - reflexivity.
 Qed.
 
 (* ---- spacing --------------------------------------------------------------------------------------------- *)
@@ -1132,6 +1141,7 @@ Proof.
   - rewrite (keys_same _ _ (same_slots_step s (Replay sid) I)) in Hin. exact Hin.
   - destruct Hin.
   - rewrite (keys_same _ _ (same_slots_step s Keepalive I)) in Hin. exact Hin.
+  - rewrite (keys_same _ _ (same_slots_step s Abandon I)) in Hin. exact Hin.
 Qed.
 
 Lemma sess_rel_new s s' ts i_m i_s :
@@ -1300,6 +1310,7 @@ Definition clauses_spec (t : sst) (e : event) (a : obs) : list (N * bool) :=
   | Replay _ => [(13, c_inert b a)]
   | Restart => [(14, c_restart a)]
   | Keepalive => [(15, c_send t1 b a); (16, c_frame b a)]
+  | Abandon => [(17, c_inert b a)]
   end.
 
 Lemma sstep_eq t e a :
@@ -1307,7 +1318,7 @@ Lemma sstep_eq t e a :
   (mkSst (new_spec t e a ++ t_sess t) (t_nsess t + N.of_nat (length (new_spec t e a)))
          (optN_list (ob_init a) ++ t_inits t) (since_spec t e a) (latch_spec t e a) (conf_spec t e a) a,
    first_false (clauses_spec t e a)).
-Proof. destruct e as [[|]| | | | | | | | |]; reflexivity. Qed.
+Proof. destruct e as [[|]| | | | | | | | | |]; reflexivity. Qed.
 
 Lemma is_some_init s' o : is_some (ob_init (observe s' o)) = o_init o.
 Proof. cbn. destruct (o_init o); reflexivity. Qed.
@@ -1376,7 +1387,7 @@ Proof.
 Qed.
 
 Definition simple_event (e : event) : Prop :=
-  match e with Initiate _ | Send | Keepalive | Tick _ | Forged _ | Replay _ => True | _ => False end.
+  match e with Initiate _ | Send | Keepalive | Tick _ | Forged _ | Replay _ | Abandon => True | _ => False end.
 
 Lemma latch_simple s e : simple_event e -> latch (fst (step s e)) = latch s.
 Proof.
@@ -1392,6 +1403,7 @@ Proof.
   - unfold do_keepalive, do_transmit.
     pose proof (latch_ss (set_staged (set_now s (now s + 1)) (if staged (set_now s (now s + 1)) =? 0 then 1 else staged (set_now s (now s + 1))))) as L.
     destruct (send_staged _) as [[s1 sent] i]. exact L.
+  - reflexivity.
 Qed.
 
 (* Rel after an event that derives no session and promotes nothing (simple events and Restart) *)
@@ -1450,6 +1462,7 @@ Proof.
     + destruct Hp as [<-|[<-|[]]]; [|apply Hfr, I].
       apply (c_send_holds s op Keepalive _ n H (or_intror eq_refl) (R_frac _ _ _ HR) Hn).
       intros Hsp. apply (spaced_not_limited s (t_since t) H (R_since _ _ _ HR)). exact Hsp.
+    + destruct Hp as [<-|[]]. apply c_inert_holds, I.
   - cbn [In] in Hp. destruct Hp as [<-|[]]. apply c_restart_holds, H.
 Qed.
 
@@ -2014,6 +2027,7 @@ Proof.
   - apply ok_simple; auto. left. exact I.
   - apply ok_simple; auto. left. exact I.
   - apply ok_simple; auto.
+  - apply ok_simple; auto. left. exact I.
   - apply ok_simple; auto. left. exact I.
 Qed.
 
